@@ -8,7 +8,6 @@ import (
 	"strings"
 	"sync/atomic"
 
-	"servitor/client"
 	"servitor/jtp"
 	"servitor/ui"
 	"servitor/verifrt"
@@ -29,7 +28,7 @@ type Driver struct {
 // Reset clears process-wide fetch state so that executions are independent.
 func Reset() {
 	jtp.VerifPurgeCache()
-	client.VerifResetGroup()
+	verifrt.RunResetHooks()
 }
 
 func New(width, height int) *Driver {
